@@ -59,7 +59,13 @@ Definition margin_mismatch (c : Z * mstep * bool * mstate * mstate) : option (Z 
   match st with
   | MTx m fee hl =>
     let '(s', ok') := deliver_margin pre fee hl m in
+    (* what C13_history asks along the run when a position is opened: the id the counter hands out next is free *)
+    let fresh := match m with
+                 | MOpen sg _ _ _ _ => (0 <=? ms_count pre) && (match find_mtp pre sg (ms_count pre + 1) with None => true | Some _ => false end)
+                 | _ => true
+                 end in
     if negb (Bool.eqb ok ok') then Some (id, 1)
+    else if negb fresh then Some (id, 12)
     else let d := mstate_diff s' post in if d =? 0 then None else Some (id, d)
   | MBegin rates =>
     match begin_block_margin pre rates with
